@@ -183,6 +183,43 @@ def matrix(dirs, props, tier, jobs):
     return 0
 
 
+def targeted(dirs, jobs):
+    """each fault against the check of the property it was written for (first line `PROPERTY: Cxx` of notes.md,
+    else the Cxx prefix of the directory name)"""
+    import re
+    from concurrent.futures import ThreadPoolExecutor
+    global SNAP
+    SNAP = "/tmp/mrun/_snapshot_%d" % os.getpid()
+    shutil.rmtree(SNAP, ignore_errors=True)
+    os.makedirs(SNAP)
+    for f in ("check", "propcfg.py", "MANIFEST.json", "KNOWN_FINDINGS.txt"):
+        shutil.copy(os.path.join(VERIF, f), SNAP)
+    shutil.copytree(os.path.join(VERIF, "harness"), SNAP + "/harness", ignore=shutil.ignore_patterns("target"))
+
+    def prop_of(d):
+        try:
+            first = open(os.path.join(d, "notes.md")).read(400)
+            m = re.search(r"PROPERTY:\s*(C\d\d)", first)
+            if m:
+                return m.group(1)
+        except OSError:
+            pass
+        m = re.search(r"(C\d\d)", os.path.basename(os.path.abspath(d)))
+        return m.group(1) if m else None
+
+    def one(d):
+        pr = prop_of(d)
+        r = scratch_run(d, [pr], "quick")
+        v = r.get(pr, ["?", 0, r.get("error", "")])
+        print("%-36s target=%s rc=%s %s" % (d, pr, v[0], v[2]), flush=True)
+        return d, pr, v
+    with ThreadPoolExecutor(max_workers=jobs) as ex:
+        out = list(ex.map(one, dirs))
+    shutil.rmtree(SNAP, ignore_errors=True)
+    json.dump({d: [pr, v] for d, pr, v in out}, open(os.path.join(VERIF, "work", "targeted_last.json"), "w"), indent=1)
+    return 0
+
+
 def main():
     a = sys.argv[1:]
     if len(a) < 2:
@@ -190,6 +227,10 @@ def main():
         return 3
     if a[0] == "verify":
         return verify(a[1])
+    if a[0] == "targeted":
+        dirs = [x for x in a[1:] if not x.startswith("--") and os.path.isdir(x)]
+        jobs = int(a[a.index("--jobs") + 1]) if "--jobs" in a else 4
+        return targeted(dirs, jobs)
     if a[0] == "matrix":
         props = all_props()
         dirs = [x for x in a[1:] if not x.startswith("--") and os.path.isdir(x)]
